@@ -27,7 +27,7 @@ def floor(tier):
 
 
 def cases(tier, rng):
-    n = 72 if tier == "quick" else 1600
+    n = 72 if tier == "quick" else 8000
     out = []
     fams = ["ffns", "zm", "fonll", "pos"]
     for i in range(n):
